@@ -66,3 +66,56 @@ Proof. exact erf_odd. Qed.
 (** known finding: the Abramowitz–Stegun formula does not vanish at 0, so oddness fails at exactly x = 0 *)
 Theorem C09_erf_at_zero : erf RO 0 = 1 / 1000000000.
 Proof. exact erf_at_zero. Qed.
+
+(** ** Tie A: the model IS the source (expression translator).  [Generated/special.v] is re-translated from
+    src/functions/gamma.rs and src/functions/statistical.rs on every run (tools/tiea/special.py, tools/rsexpr.py),
+    operation for operation, with the literals of Generated/special_consts.v.  [src_f O F] is the BODY of the Rust
+    function [f] with its recursive call rendered as a call of [F].  The theorems hold for EVERY carrier [T] and
+    operations record [O] (the digamma ones under [ofZ O 1 = one O], true by computation on R, Q and binary64: the
+    model takes its numerators from the generated table, the source writes [1.]). *)
+From Coq Require Import ZArith QArith Reals Floats List.
+From Compute Require Import Base.Ops Base.RsExpr Model.Special Generated.special_consts Generated.special Proofs.TieA_special.
+Theorem C09_model_is_source_beta :
+  forall (T : Type) (O : Ops T) (a b : T), src_beta O (gamma O) a b = beta O a b.
+Proof. exact @tiea_beta. Qed.
+(** the body of [gamma] is: reflection formula around the recursive call below 1/2, the model's [gamma_pos] (Lanczos
+    loop, split power) from 1/2 on *)
+Theorem C09_model_is_source_gamma_body :
+  forall (T : Type) (O : Ops T) (Gam : T -> T) (z : T),
+    src_gamma O Gam z =
+    if ltb O z (ofQ O (1 # 2)) then div O (pi O) (mul O (f1 O Sin (mul O (pi O) z)) (Gam (sub O (one O) z)))
+    else gamma_pos O z.
+Proof. exact @tiea_gamma_body. Qed.
+(** the model is the body whose reflected call [gamma(1. - z)] takes the [else] branch *)
+Theorem C09_model_is_source_gamma :
+  forall (T : Type) (O : Ops T) (z : T), src_gamma O (gamma_pos O) z = gamma O z.
+Proof. exact @tiea_gamma. Qed.
+(** and on the reals it satisfies the source's recursion equation itself *)
+Theorem C09_model_is_source_gamma_fixpoint_R : forall z : R, src_gamma RO (gamma RO) z = gamma RO z.
+Proof. exact gamma_fixpoint_R. Qed.
+Theorem C09_model_is_source_erf_body :
+  forall (T : Type) (O : Ops T) (Erf : T -> T) (x : T),
+    src_erf O Erf x = if leb O (zero O) x then erf_nonneg O x else neg O (Erf (neg O x)).
+Proof. exact @tiea_erf_body. Qed.
+Theorem C09_model_is_source_erf :
+  forall (T : Type) (O : Ops T) (x : T), src_erf O (erf_nonneg O) x = erf O x.
+Proof. exact @tiea_erf. Qed.
+Theorem C09_model_is_source_erf_fixpoint_R : forall x : R, src_erf RO (erf RO) x = erf RO x.
+Proof. exact erf_fixpoint_R. Qed.
+(** digamma: from 6 on the source's series is the model's fold over the generated table *)
+Theorem C09_model_is_source_digamma_series :
+  forall (T : Type) (O : Ops T), ofZ O 1 = one O ->
+    forall (Dig : T -> T) (x : T), ltb O x (ofZ O 6) = false -> src_digamma O Dig x = digamma_asym O x.
+Proof. exact @tiea_digamma_series. Qed.
+(** one unfolding of the fuelled model is the source body (the recursive call's value [d] plugged in) *)
+Theorem C09_model_is_source_digamma :
+  forall (T : Type) (O : Ops T), ofZ O 1 = one O ->
+    forall (fuel : nat) (x : T),
+      digamma O (S fuel) x =
+      if ltb O x (ofZ O 6)
+      then option_map (fun d : T => src_digamma O (fun _ : T => d) x) (digamma O fuel (add O x (one O)))
+      else Some (src_digamma O (fun y : T => y) x).
+Proof. exact @tiea_digamma. Qed.
+Theorem C09_model_is_source_digamma_carriers :
+  ofZ RO 1 = one RO /\ ofZ QO 1 = one QO /\ forall t : libm_table, ofZ (FO t) 1 = one (FO t).
+Proof. exact (conj ofZ_one_RO (conj ofZ_one_QO ofZ_one_FO)). Qed.
